@@ -1,6 +1,7 @@
 from checks.inteval import run_inteval
 from checks.approxeval import run_approxeval
 from checks.c13 import run_polyeval
+from checks.frame import run_frame
 
 
 def run(ctx):
@@ -18,3 +19,5 @@ def run(ctx):
         run_approxeval(ctx, frame=True)
     if fam in (None, 'polyeval'):
         run_polyeval(ctx, frame=True)
+    if fam in (None, 'frame'):
+        run_frame(ctx)
